@@ -14,6 +14,10 @@
 // REGIME 2 : only the memory-safety monitors (no arithmetic oracle): every pattern pair, used for C17.
 // REGIME 3 : (C11) the part built from the adjoint operator pair (C' = CX^T, CX' = C^T) satisfies G'(conj z) == conj G(z)
 // REGIME 4 : (C11) diagonal component, CX = C^T: Im G(i w) <= 0 for w > 0
+// REGIME 5 : (C19) 1x1 part whose two blocks were discarded at tolerance eps (all weights <= eps):
+//            |Im z| |G_part(z)| <= 2 eps |C CX|   (per-part bound; summed over parts with sum|C CX| <= dim it gives 2 eps dim/|Im z|)
+// REGIME 6 : (C08) splitting a block-compatible 2x2 block pair into two 1x1 block pairs leaves the sum of the part values
+//            unchanged (two partitions compared where no eigen-solver is involved)
 //            (sign and end-point identities in imaginary time are decided per term in h_gfterm)
 #include "prestate.h"
 #include "pomerol/GreensFunctionPart.h"
@@ -79,6 +83,59 @@ extern "C" void h_main() {
         check(g.imag() <= 0, "Im G_ii(i w) <= 0 for w > 0");
         // (the imaginary-time statements are decided per term in h_gfterm; a part is the sum of its terms)
         reach("diagonal_checked");
+    }
+#elif REGIME == 5
+    {
+        double eps = sym_real("eps");
+        assume(eps >= 0);
+        for (int n = 0; n < o; ++n) assume(DMout.weights(n) <= eps);
+        for (int m = 0; m < i; ++m) assume(DMin.weights(m) <= eps);
+        double x = sym_real("zre"), y = sym_real("zim");
+        assume(y != 0);
+        ComplexType g = G(ComplexType(x, y));
+        double lhs = y * y * (g.real() * g.real() + g.imag() * g.imag());
+        double cc = dC.present[0][0] && dCX.present[0][0] ? dC.v[0][0] * dCX.v[0][0] : 0;
+        check_le(lhs, 4 * eps * eps * cc * cc, "|Im z|^2 |G_part(z)|^2 <= (2 eps |C CX|)^2 for a discarded 1x1 stripe");
+        reach("bound_checked");
+    }
+#elif REGIME == 6
+    {
+        // only meaningful for block-compatible patterns: C and CX diagonal
+        bool diag = true;
+        for (int r = 0; r < o; ++r) for (int c = 0; c < i; ++c) if (r != c && (dC.present[r][c] || dCX.present[c][r])) diag = false;
+        if (diag && o == 2 && i == 2) {
+            double x = sym_real("zre"), y = sym_real("zim");
+            assume(y != 0);
+            ComplexType whole = G(ComplexType(x, y));
+            ComplexType split(0, 0);
+            for (int k = 0; k < 2; ++k) {
+                pre::Dense c1, cx1; c1.rows = c1.cols = cx1.rows = cx1.cols = 1;
+                c1.present[0][0] = dC.present[k][k]; c1.v[0][0] = dC.v[k][k];
+                cx1.present[0][0] = dCX.present[k][k]; cx1.v[0][0] = dCX.v[k][k];
+                HamiltonianPart& hi = pre::raw<HamiltonianPart>(); new (&hi.H) MatrixType(); new (&hi.Eigenvalues) RealVectorType(1);
+                hi.Eigenvalues(0) = Hin.Eigenvalues(k); hi.Status = ComputableObject::Computed;
+                HamiltonianPart& ho = pre::raw<HamiltonianPart>(); new (&ho.H) MatrixType(); new (&ho.Eigenvalues) RealVectorType(1);
+                ho.Eigenvalues(0) = Hout.Eigenvalues(k); ho.Status = ComputableObject::Computed;
+                DensityMatrixPart& di = pre::raw<DensityMatrixPart>(); new (static_cast<Thermal*>(&di)) Thermal(beta); new (&di.weights) RealVectorType(1);
+                di.weights(0) = DMin.weights(k); di.retained = true;
+                DensityMatrixPart& dou = pre::raw<DensityMatrixPart>(); new (static_cast<Thermal*>(&dou)) Thermal(beta); new (&dou.weights) RealVectorType(1);
+                dou.weights(0) = DMout.weights(k); dou.retained = true;
+                AnnihilationOperatorPart& Ck = pre::oppart<AnnihilationOperatorPart>(c1);
+                CreationOperatorPart& CXk = pre::oppart<CreationOperatorPart>(cx1);
+                GreensFunctionPart Gk(Ck, CXk, hi, ho, di, dou);
+                Gk.compute();
+                split += Gk(ComplexType(x, y));
+            }
+            // the two poles either coincide exactly or are well separated (merging inside the 2x2 part is then exact)
+            double P0 = Hin.Eigenvalues(0) - Hout.Eigenvalues(0), P1 = Hin.Eigenvalues(1) - Hout.Eigenvalues(1);
+            if (P0 != P1) assume(mabs(P0 - P1) >= 1e-8);
+            // and no cancellation below the tolerance when they merge
+            double R0 = dC.v[0][0] * dCX.v[0][0] * (DMout.weights(0) + DMin.weights(0)), R1 = dC.v[1][1] * dCX.v[1][1] * (DMout.weights(1) + DMin.weights(1));
+            if (P0 == P1 && mabs(R0) > 1e-8 && mabs(R1) > 1e-8) assume(mabs(R0 + R1) >= 1e-8);
+            check_eq(whole.real(), split.real(), "sum of part values is invariant under splitting the block pair (real part)");
+            check_eq(whole.imag(), split.imag(), "sum of part values is invariant under splitting the block pair (imaginary part)");
+            reach("split_compared");
+        }
     }
 #elif REGIME != 2
     // ---- reference ------------------------------------------------------------
